@@ -114,8 +114,11 @@ func c10Delete(r *fw.Rand) string {
 		los, his = fmt.Sprint(c10Base), fmt.Sprint(c10Base+40000) // spans all ordinary points
 	}
 	verb := "del"
-	if r.Intn(4) == 0 {
+	switch r.Intn(8) {
+	case 0, 1:
 		verb = "snapdel"
+	case 2:
+		verb = "delprobe" // the files are asked for their tombstones in mid-delete
 	}
 	return fmt.Sprintf("%s %s %s %s %s", verb, meas, pred, los, his)
 }
